@@ -15,7 +15,7 @@ from . import env
 
 NUMF = ("x", "y", "z")
 SELF = ("p", "r")
-FLAVOURS = ("lambda", "def", "str", "named", "cached", "namedcached", "lamdef", "factory", "kwonly", "namedempty")
+FLAVOURS = ("lambda", "def", "str", "named", "cached", "namedcached", "lamdef", "factory", "kwonly", "namedempty", "namedlib")
 LEAF_Q = ("Sum", "Average", "Deviate", "Minimize", "Maximize")
 BINNERS = ("Bin", "SparselyBin", "CentrallyBin", "IrregularlyBin", "Categorize")
 COLLECTIONS = ("Label", "UntypedLabel", "Index", "Branch")
@@ -57,6 +57,8 @@ def qname(node, force=None):
         return _expr(node)
     if fl == "namedempty":
         return ""
+    if fl == "namedlib":
+        return "identity"
     return "n_" + node["f"]
 
 
@@ -65,7 +67,11 @@ class InjectedFault(Exception):
 
 
 # fault plan consulted by quantities of flavour "fault": user functions are the failpoints C12 quantifies over
-FAULT = {"fire": False, "mode": "raise", "fired": 0}
+FAULT = {"fire": False, "mode": "raise", "fired": 0, "exc": None}
+
+# what a failing user function may raise: the library must let every one of them through untouched (a handler that is
+# too wide, or meant for something else - `except OverflowError`, `except (TypeError, ValueError)` - would swallow it)
+FAULT_EXCEPTIONS = (None, OverflowError, KeyError, ZeroDivisionError, ValueError, TypeError, AttributeError, IndexError, NameError, AssertionError, RuntimeError, FloatingPointError, StopIteration, ArithmeticError, LookupError, UnicodeError, OSError, MemoryError, NotImplementedError, RecursionError)
 
 
 def _wrong_value(node):
@@ -99,7 +105,7 @@ def _fault_quantity(node):
         if FAULT["fire"]:
             FAULT["fired"] += 1
             if FAULT["mode"] == "raise":
-                raise InjectedFault("injected failure in the quantity of %s" % node["k"])
+                raise (FAULT.get("exc") or InjectedFault)("injected failure in the quantity of %s" % node["k"])
             if FAULT["mode"] == "wrong-np":
                 return wrong_np
             return wrong
@@ -138,6 +144,8 @@ def make_quantity(node, force=None):
         return named("n_" + node["f"], f)
     if fl == "namedempty":
         return named("", f)  # the empty string is a name like any other (falsy, though)
+    if fl == "namedlib":
+        return named("identity", f)  # a user function that happens to carry the name of one of the library's own
     if fl == "cached":
         return cached(f)
     if fl == "namedcached":
@@ -169,6 +177,11 @@ def build(spec, force=None):
     if k == "Count":
         if spec.get("t"):
             tf = eval(TRANSFORMS_SRC[spec["t"]], {})
+            if spec.get("tn"):
+                # the same transform written as a def called like one of the library's own functions
+                ns = {}
+                exec("def %s(w):\n    return %s\n" % (spec["tn"], TRANSFORMS_SRC[spec["t"]].split(":", 1)[1].strip()), ns)
+                tf = ns[spec["tn"]]
             if spec.get("tc"):
                 from histogrammar.util import cached
 
@@ -478,6 +491,8 @@ def gen_leaf(rng, o, kind=None):
         return {"k": "Count"}
     if k == "CountT":
         n = {"k": "Count", "t": rng.choice(["dbl", "sq"])}
+        if rng.random() < 0.25:
+            n["tn"] = rng.choice(["square", "identity", "unweighted"])
         if rng.random() < 0.35:
             n["tc"] = True  # the transform wrapped in cached(): its argument is the weight (a scalar, or the weights array)
         return n
